@@ -76,14 +76,12 @@ def oracle(rec):
     # bar events of the main process, per bar object, in the handler thread's own order
     bars = {}
     for name, evs in rec['events'].items():
-        seg, prev = {}, {}
+        seg = 0
         for e in evs:
-            if e.get('k') == 'bar':
-                b = e['bar']          # id() of the bar object: may be reused by the bar of a later call
-                if prev.get(b) == 'final_refresh' and e['m'] != 'final_refresh':
-                    seg[b] = seg.get(b, 0) + 1
-                prev[b] = e['m']
-                bars.setdefault((name, b, seg.get(b, 0)), []).append(e)
+            if e.get('k') == 'bar_start':          # a handler thread (one per call with a bar) begins
+                seg += 1
+            elif e.get('k') == 'bar':
+                bars.setdefault((name, seg), []).append(e)
     bar_list = sorted(bars.values(), key=lambda l: l[0]['t'])
     bi = 0
     for c, o in zip(sc['calls'], res['calls']):
